@@ -1482,8 +1482,24 @@ def layout_variant(rng, patch):
     """one meaning-preserving re-layout of a single-change patch; returns (text, [transformations])"""
     desc, header, meta, body = split_patch_text(patch)
     done = []
-    t = rng.randrange(7)
-    if t == 0:      # '#' comment lines anywhere (not above the header: that would change the description)
+    t = rng.randrange(9)
+    if t == 7:      # re-wrap: break the lines of the pattern after commas, identically on both sides
+        out = []
+        for l in body:
+            if l and l[0] in " -+" and ", " in l and not any(q in l for q in '"`\''):
+                parts = l[1:].split(", ")
+                out.append(l[0] + parts[0] + ",")
+                for k, part in enumerate(parts[1:]):
+                    out.append(l[0] + "\t" + part + ("," if k < len(parts) - 2 else ""))
+            else:
+                out.append(l)
+        if out != body:
+            body = out
+            done.append("rewrap")
+    elif t == 8:    # blank line between the second @@ and the first line of the diff
+        body.insert(0, "")
+        done.append("leading-blank-line")
+    elif t == 0:      # '#' comment lines anywhere (not above the header: that would change the description)
         for _ in range(rng.randint(1, 3)):
             c = rng.choice(["# note", "#", "  # indented", "#@@ not a header"])
             if meta and rng.random() < 0.4:
@@ -1550,12 +1566,13 @@ def c13(ctx):
                 "section.Split vs the model). Non-trivial = the original patch rewrites the file; distinct = distinct variant text.")
     rng = random.Random(ctx.seed)
     n = 250 if ctx.tier == "quick" else 8000
-    cases = [c for c in gen_cases(ctx, "mix", n, ctx.seed) if len(c.get("patches", [])) == 1]
+    cases = [c for c in gen_cases(ctx, "mix", n // 2, ctx.seed) if len(c.get("patches", [])) == 1]
+    cases += [c for c in gen_cases(ctx, "c04", n // 2, ctx.seed + 1, golden=False) if len(c.get("patches", [])) == 1]
     batch = []
     meta_info = {}
     for i, c in enumerate(cases):
         try:
-            variants = [layout_variant(rng, c["patches"][0]) for _ in range(2)]
+            variants = [layout_variant(rng, c["patches"][0]) for _ in range(3)]
         except Exception:
             continue
         batch.append({"id": f"o{i}", "patches": c["patches"], "src": c["src"]})
